@@ -434,7 +434,6 @@ func (s *Server) Reset(reason string, timeoutMs int64) (*statejson.ResetDescript
 	}()
 
 	done := <-s.ResetDoneChan
-	s.Release()
 
 	if done.ErrorType != "" {
 		return nil, errors.New(string(done.ErrorType))
